@@ -14,7 +14,7 @@ import (
 func init() {
 	register("C09", Meta{
 		Explanation: "Structural necessary conditions of 'signer sets mirror bonded power': (membership) the signer-set builder ranges over the whole result of StakingKeeper.GetBondedValidatorsByPower; an element is appended iff GetValidatorExternalAddress(chain, validator) is non-zero (the append is guarded by that test, the test's passing edge leads straight to the append, and no other path skips an element or leaves the loop early); its Power is GetLastValidatorPower of the same validator and its address is the looked-up address; the normalisation divisor accumulates exactly the powers of appended members (the += sits in the block of the append, with the stored value) starting from 0; every element of the result is normalised as p*MaxUint32/total with a truncating division; (sorted) every SignerSetTx the module builds comes from the constructor that sorts the members first, and the comparator orders by Power descending and breaks ties by a total order on the address; (nonce) LatestSignerSetTxNonceKey has one +1 increment whose result is the new set's nonce; (freshness-trigger) begin-block processing calls the creation trigger unconditionally for every chain other than hub, the trigger creates when there is no latest set and when CurrentSignerSet.PowerDiff(latest.Signers) > c with c <= 0.05; PowerDiff accounts for members present on either side (map update on both branches of the membership test) and divides the summed absolute differences by MaxUint32.",
-		NotDecided: []string{"'within one unit' and '<= 5%' as arithmetic facts", "staking-module behaviour (which validators are bonded)", "float rounding in PowerDiff beyond the reviewed exception recorded under C06"},
+		NotDecided:  []string{"'within one unit' and '<= 5%' as arithmetic facts", "staking-module behaviour (which validators are bonded)", "float rounding in PowerDiff beyond the reviewed exception recorded under C06"},
 		Assumptions: commonAssumptions,
 	}, checkC09)
 }
